@@ -1086,6 +1086,7 @@ func (e *MetaCDC) startReplicateAPIEvent(replicateCtx context.Context, entity *R
 				if !e.isRunningTask(taskID) {
 					// a left-over of a task that was paused meanwhile: the loop also serves the other tasks of this downstream
 					log.Warn("not running task", zap.Any("event", replicateAPIEvent), zap.String("task_id", taskID))
+					verifEventDiscarded(replicateAPIEvent)
 					continue
 				}
 				if replicateAPIEvent.EventType == api.ReplicateCreateCollection {
